@@ -66,6 +66,7 @@ pub fn worker_main(args: &[String]) {
     let stride = cli_u64(args, "--stride", 1);
     let count = cli_u64(args, "--count", 1);
     let max_wall_s = cli_u64(args, "--max-wall-s", 3600);
+    let skip: BTreeSet<u64> = cli_arg(args, "--skip").map(|s| s.split(',').filter_map(|x| x.parse().ok()).collect()).unwrap_or_default();
     let t0 = Instant::now();
     let mut s = WorkerSummary::default();
     let mut sigs: BTreeSet<u64> = BTreeSet::new();
@@ -78,6 +79,16 @@ pub fn worker_main(args: &[String]) {
         }
         let index = start + k * stride;
         k += 1;
+        if skip.contains(&index) {
+            continue;
+        }
+        {
+            // lets the coordinator attribute a process abort to the run that caused it
+            let out = std::io::stdout();
+            let mut o = out.lock();
+            writeln!(o, "LSIM-RUN {index}").unwrap();
+            o.flush().unwrap();
+        }
         let plan = props::gen_plan(&prop, props::mix_seed(seed, &prop, index));
         let r = props::run_plan(&plan);
         s.runs += 1;
@@ -137,6 +148,9 @@ struct KnownFinding {
     property: String,
     /// violation class; a trailing '*' matches any suffix
     class: String,
+    /// consequences of the same defect that show up under other classes (hangs, poisoned locks ...)
+    #[serde(default)]
+    also: Vec<String>,
     what: String,
 }
 
@@ -152,7 +166,15 @@ fn load_known() -> KnownFindings {
 }
 
 fn known_match<'a>(k: &'a KnownFindings, prop: &str, class: &str) -> Option<&'a KnownFinding> {
-    k.findings.iter().find(|f| f.property == prop && (f.class == class || (f.class.ends_with('*') && class.starts_with(&f.class[..f.class.len() - 1]))))
+    let m = |pat: &str| pat == class || (pat.ends_with('*') && class.starts_with(&pat[..pat.len() - 1]));
+    k.findings.iter().find(|f| (f.property == prop || f.property == "*") && (m(&f.class) || f.also.iter().any(|a| m(a))))
+}
+
+/// glibc malloc tuning for worker processes: one arena, never trim, never mmap single allocations.
+/// Every run executes on a fresh OS thread; without this each run pays for arena growth/trim page
+/// faults, which serialise badly across 16 processes in this VM (measured 5x).
+pub fn malloc_env() -> Vec<(&'static str, &'static str)> {
+    vec![("MALLOC_ARENA_MAX", "1"), ("MALLOC_TRIM_THRESHOLD_", "2000000000"), ("MALLOC_TOP_PAD_", "268435456"), ("MALLOC_MMAP_THRESHOLD_", "1073741824")]
 }
 
 pub struct TierSpec {
@@ -197,67 +219,94 @@ pub fn check_main(args: &[String]) -> i32 {
     println!("lsim check property={prop} tier={tier} VERIF_SEED={seed} runs={runs} jobs={jobs}");
 
     let exe = std::env::current_exe().expect("current_exe");
-    let mut children = Vec::new();
-    for w in 0..jobs {
-        let count = (runs + jobs - 1 - w) / jobs;
-        if count == 0 {
-            continue;
-        }
-        let child = std::process::Command::new(&exe)
-            .args(["worker", "--prop", &prop, "--seed", &seed.to_string(), "--start", &w.to_string(), "--stride", &jobs.to_string(), "--count", &count.to_string(), "--max-wall-s", &max_wall_s.to_string()])
-            .stdout(std::process::Stdio::piped())
-            .stderr(std::process::Stdio::piped())
-            .spawn()
-            .expect("spawn worker");
-        children.push((w, child));
-    }
     let mut total = WorkerSummary::default();
     let mut sigs: BTreeSet<u64> = BTreeSet::new();
     let mut shs: BTreeSet<u64> = BTreeSet::new();
     let mut harness_errors: Vec<String> = Vec::new();
-    for (w, child) in children {
-        let outp = child.wait_with_output().expect("wait worker");
-        let mut got = false;
-        for line in outp.stdout.lines().map_while(Result::ok) {
-            if let Some(js) = line.strip_prefix("LSIM-SUMMARY ") {
-                match serde_json::from_str::<WorkerSummary>(js) {
-                    Ok(s) => {
-                        got = true;
-                        total.runs += s.runs;
-                        total.executions += s.executions;
-                        total.steps += s.steps;
-                        total.sched_points += s.sched_points;
-                        total.ctx_switches += s.ctx_switches;
-                        total.timers_fired += s.timers_fired;
-                        total.idle_firings += s.idle_firings;
-                        total.eager_firings += s.eager_firings;
-                        total.sim_ns += s.sim_ns;
-                        total.fs_effects += s.fs_effects;
-                        total.wall_us += s.wall_us;
-                        total.nontrivial_runs += s.nontrivial_runs;
-                        total.stopped_early |= s.stopped_early;
-                        sigs.extend(s.signatures);
-                        shs.extend(s.sched_hashes);
-                        for (k, v) in s.counters {
-                            *total.counters.entry(k).or_insert(0) += v;
+    let mut aborts: Vec<(u64, String)> = Vec::new();
+    // (worker number, indices to skip because they abort the process)
+    let mut pending: Vec<(u64, Vec<u64>)> = (0..jobs).map(|w| (w, Vec::new())).collect();
+    let mut rounds = 0;
+    while !pending.is_empty() && rounds < 6 {
+        rounds += 1;
+        let mut children = Vec::new();
+        for (w, skip) in pending.drain(..) {
+            let count = (runs + jobs - 1 - w) / jobs;
+            if count == 0 {
+                continue;
+            }
+            let mut cmd = std::process::Command::new(&exe);
+            cmd.args(["worker", "--prop", &prop, "--seed", &seed.to_string(), "--start", &w.to_string(), "--stride", &jobs.to_string(), "--count", &count.to_string(), "--max-wall-s", &max_wall_s.to_string()]);
+            if !skip.is_empty() {
+                cmd.args(["--skip", &skip.iter().map(|x| x.to_string()).collect::<Vec<_>>().join(",")]);
+            }
+            let child = cmd.envs(malloc_env()).stdout(std::process::Stdio::piped()).stderr(std::process::Stdio::piped()).spawn().expect("spawn worker");
+            children.push((w, skip, child));
+        }
+        for (w, skip, child) in children {
+            let outp = child.wait_with_output().expect("wait worker");
+            let mut got = false;
+            let mut last_run: Option<u64> = None;
+            for line in outp.stdout.lines().map_while(Result::ok) {
+                if let Some(i) = line.strip_prefix("LSIM-RUN ") {
+                    last_run = i.trim().parse().ok();
+                } else if let Some(js) = line.strip_prefix("LSIM-SUMMARY ") {
+                    match serde_json::from_str::<WorkerSummary>(js) {
+                        Ok(s) => {
+                            got = true;
+                            total.runs += s.runs;
+                            total.executions += s.executions;
+                            total.steps += s.steps;
+                            total.sched_points += s.sched_points;
+                            total.ctx_switches += s.ctx_switches;
+                            total.timers_fired += s.timers_fired;
+                            total.idle_firings += s.idle_firings;
+                            total.eager_firings += s.eager_firings;
+                            total.sim_ns += s.sim_ns;
+                            total.fs_effects += s.fs_effects;
+                            total.wall_us += s.wall_us;
+                            total.nontrivial_runs += s.nontrivial_runs;
+                            total.stopped_early |= s.stopped_early;
+                            sigs.extend(s.signatures);
+                            shs.extend(s.sched_hashes);
+                            for (k, v) in s.counters {
+                                *total.counters.entry(k).or_insert(0) += v;
+                            }
+                            for (k, v) in s.sched_kinds {
+                                *total.sched_kinds.entry(k).or_insert(0) += v;
+                            }
+                            if total.samples.len() < 3 {
+                                total.samples.extend(s.samples.into_iter().take(1));
+                            }
+                            total.found.extend(s.found);
                         }
-                        for (k, v) in s.sched_kinds {
-                            *total.sched_kinds.entry(k).or_insert(0) += v;
-                        }
-                        if total.samples.len() < 3 {
-                            total.samples.extend(s.samples.into_iter().take(1));
-                        }
-                        total.found.extend(s.found);
+                        Err(e) => harness_errors.push(format!("worker {w}: bad summary: {e}")),
                     }
-                    Err(e) => harness_errors.push(format!("worker {w}: bad summary: {e}")),
+                }
+            }
+            if !got {
+                let err = String::from_utf8_lossy(&outp.stderr);
+                let tail: String = err.lines().rev().take(12).collect::<Vec<_>>().into_iter().rev().collect::<Vec<_>>().join("\n");
+                match last_run {
+                    Some(i) if !skip.contains(&i) => {
+                        // the database took the whole process down (abort / segfault) in run i
+                        aborts.push((i, format!("worker process died (status {:?}) while executing run index {i}; stderr tail:\n{tail}", outp.status)));
+                        let mut skip2 = skip.clone();
+                        skip2.push(i);
+                        pending.push((w, skip2));
+                    }
+                    _ => harness_errors.push(format!("worker {w} failed (status {:?}):\n{}", outp.status.code(), tail)),
                 }
             }
         }
-        if !got || !outp.status.success() {
-            let err = String::from_utf8_lossy(&outp.stderr);
-            let tail: String = err.lines().rev().take(12).collect::<Vec<_>>().into_iter().rev().collect::<Vec<_>>().join("\n");
-            harness_errors.push(format!("worker {w} failed (status {:?}):\n{}", outp.status.code(), tail));
-        }
+    }
+    if !pending.is_empty() {
+        harness_errors.push("workers kept dying; giving up".into());
+    }
+    for (i, detail) in aborts {
+        let site = detail.lines().find_map(|l| l.find("panicked at ").map(|p| l[p + 12..].to_string())).map(|l| crate::env::file_of(l.trim_end_matches(':'))).unwrap_or_else(|| "unknown".into());
+        let plan = props::gen_plan(&prop, props::mix_seed(seed, &prop, i));
+        total.found.push(Found { index: i, plan, violations: vec![Violation { class: format!("process_abort:{site}"), detail }], event_hash: 0 });
     }
     if !harness_errors.is_empty() {
         for e in &harness_errors {
@@ -308,8 +357,10 @@ pub fn check_main(args: &[String]) -> i32 {
         crate::warm_up();
     }
     for (class, f) in new_violations.iter().take(4) {
-        let (plan, minimised) = minimise(&f.plan, class, 45);
-        let r = props::run_plan(&plan);
+        let is_abort = class.starts_with("process_abort");
+        // (a plan that kills the process cannot be minimised in-process)
+        let (plan, minimised) = if is_abort { (f.plan.clone(), false) } else { minimise(&f.plan, class, 45) };
+        let r = if is_abort { RunResult { violations: vec![], stats: RunStats::default() } } else { props::run_plan(&plan) };
         let detail = r.violations.iter().find(|v| &v.class == class).map(|v| v.detail.clone()).unwrap_or_else(|| f.violations[0].detail.clone());
         let rf = ReplayFile {
             property: prop.clone(),
@@ -330,7 +381,7 @@ pub fn check_main(args: &[String]) -> i32 {
         std::fs::write(&path, serde_json::to_string_pretty(&rf).unwrap()).expect("write replay file");
         // the replay must reproduce in a fresh process, otherwise nothing is claimed
         let st = std::process::Command::new(&exe).args(["replay", &path, "--quiet"]).status().expect("spawn replay");
-        if st.code() == Some(1) {
+        if st.code() == Some(1) || (is_abort && st.code().is_none()) {
             println!("violation class={class} seen in {} run(s); first at run index {}", class_counts[class], f.index);
             println!("  {detail}");
             println!("VIOLATION property={prop} replay={path}");
@@ -655,6 +706,7 @@ pub fn selftest_determinism(args: &[String]) -> i32 {
                     continue;
                 }
                 let c = std::process::Command::new(&exe)
+                    .envs(malloc_env())
                     .args(["hashes", "--prop", prop, "--seed", &seed.to_string(), "--start", &w.to_string(), "--stride", &jobs.to_string(), "--count", &count.to_string()])
                     .stdout(std::process::Stdio::piped())
                     .spawn()
